@@ -6,12 +6,12 @@ from .thr import METRICS, THR_ALIAS
 
 META = {
     "bounds": {"quick": {"scores": "P=N=2 symbolic (sorted harness; is_sorted True and False)", "argument shapes": "(), (1,), (3,), (0,), (2,1), (1,2), (0,2), (2,1,2) with independent symbolic elements",
-                         "histories": "all ordered pairs of 22 deterministic queries on one object; triples over 6 queries"},
+                         "histories": "all ordered pairs of 19 deterministic queries on one object (thorough: 22 incl. auc, threshold_at_metric); all ordered triples over 6 queries"},
                "thorough": {"scores": "P=3,N=2", "argument shapes": "as quick", "histories": "pairs + triples over 8 queries"}},
     "assumptions": ["R-exact for matrices/rates, R-ideal for thresholds", "eer() (data-dependent bisection) is not part of the history sets; auc() is",
                     "the array model shares cells between views (basic indexing, asarray) and copies otherwise, as NumPy does — this is what makes in-place writes visible"],
 }
-OPTS = {"quick": {"query_timeout_ms": 30000}, "thorough": {"query_timeout_ms": 120000, "max_paths": 50000}}
+OPTS = {"quick": {"query_timeout_ms": 30000, "max_decisions": 20000}, "thorough": {"query_timeout_ms": 120000, "max_paths": 50000, "max_decisions": 50000}}
 SHAPES = [(), (1,), (3,), (0,), (2, 1), (1, 2), (0, 2), (2, 1, 2)]
 RATE_ALIAS = {"tpr": "tar", "fnr": "frr", "tnr": "trr", "fpr": "far", "topr": "acceptance_rate", "tonr": "rejection_rate"}
 
@@ -25,10 +25,11 @@ def items(tier):
             for metric in (["fnr", "tpr", "topr"] if tier == "quick" else list(METRICS)):
                 out.append({"kind": "thresholds", "sc": sc, "ec": ec, "shape": list(shape), "metric": metric})
         out.append({"kind": "pointwise", "sc": sc, "ec": ec})
-        out.append({"kind": "nomutation", "sc": sc, "ec": ec, "is_sorted": True})
-        out.append({"kind": "nomutation", "sc": sc, "ec": ec, "is_sorted": False})
-    for i in range(22):
-        out.append({"kind": "history2", "first": i})
+        out.append({"kind": "nomutation", "sc": sc, "ec": ec, "is_sorted": True, "heavy": tier == "thorough" or (sc, ec) == ("neg", "pos")})
+        out.append({"kind": "nomutation", "sc": sc, "ec": ec, "is_sorted": False, "heavy": tier == "thorough"})
+    heavy = tier == "thorough"
+    for i in range(22 if heavy else 19):
+        out.append({"kind": "history2", "first": i, "heavy": heavy})
     out.append({"kind": "history3"})
     for shape in SHAPES[:6]:
         out.append({"kind": "cmmetrics", "shape": list(shape)})
@@ -57,13 +58,16 @@ def _arg(h, prefix, shape, **kw):
     return h.np.reshape(h.array(els), shape), els
 
 
-def _S(h, sc, ec, P=2, N=2, is_sorted=False, kp=1, kn=2):
+def _S(h, sc, ec, P=2, N=2, is_sorted=None, kp=1, kn=2):
     pos, neg = h.reals("p", P), h.reals("n", N)
-    for a in (pos, neg):
-        for i in range(len(a) - 1):
-            h.assume(a[i] <= a[i + 1])
+    if is_sorted is not False:       # is_sorted=False: genuinely unsorted input, so that an in-place sort would be visible
+        for a in (pos, neg):
+            for i in range(len(a) - 1):
+                h.assume(a[i] <= a[i + 1])
     pa, na = h.array(pos), h.array(neg)
-    S = h.sa.Scores(pa, na, nb_easy_pos=kp, nb_easy_neg=kn, score_class=sc, equal_class=ec, is_sorted=is_sorted)
+    pre = (h.snapshot(pa), h.snapshot(na))       # taken BEFORE the constructor runs
+    S = h.sa.Scores(pa, na, nb_easy_pos=kp, nb_easy_neg=kn, score_class=sc, equal_class=ec, is_sorted=bool(is_sorted))
+    S._verif_pre = pre
     return S, pos, neg, pa, na
 
 
@@ -123,8 +127,8 @@ def run_pointwise(h, sc, ec):
         h.check("pointwise_cm does not mutate its inputs", h.unchanged(lsnap, labels) and h.unchanged(ssnap, scores))
 
 
-def _queries(h, S, t, r, T, R):
-    """22 deterministic public queries as thunks returning flat cell lists."""
+def _queries(h, S, t, r, T, R, heavy=True):
+    """deterministic public queries as thunks returning flat cell lists (18 cheap ones + 4 that fork: auc, threshold_at_metric)."""
     q = []
     q.append(("cm(t)", lambda: h.cells(S.cm(t).matrix)))
     q.append(("cm(T)", lambda: h.cells(S.cm(T).matrix)))
@@ -135,11 +139,12 @@ def _queries(h, S, t, r, T, R):
     q.append(("threshold_at_fnr(r,lower)", lambda: h.cells(S.threshold_at_fnr(r, method="lower"))))
     q.append(("threshold_at_far(r,higher)", lambda: h.cells(S.threshold_at_far(r, method="higher"))))
     q.append(("swap().cm(t)", lambda: h.cells(S.swap().cm(t).matrix)))
-    q.append(("threshold_at_metric(t,'fnr')", lambda: h.cells(S.threshold_at_metric(h.const("1/3"), "fnr"))))
-    q.append(("auc()", lambda: [S.auc()]))
     q.append(("properties", lambda: [S.hard_pos_ratio, S.hard_neg_ratio, S.easy_ratio, S.nb_all_samples]))
     q.append(("tar(t)", lambda: h.cells(S.tar(t))))
-    q.append(("auc(1/4,3/4)", lambda: [S.auc(h.const("1/4"), h.const("3/4"))]))
+    if heavy:
+        q.append(("threshold_at_metric(t,'fnr')", lambda: h.cells(S.threshold_at_metric(h.const("1/3"), "fnr"))))
+        q.append(("auc()", lambda: [S.auc()]))
+        q.append(("auc(1/4,3/4)", lambda: [S.auc(h.const("1/4"), h.const("3/4"))]))
     return q
 
 
@@ -147,15 +152,16 @@ def _eqlists(h, a, b):
     return len(a) == len(b) and h.And([_same(h, x, y) for x, y in zip(a, b)])
 
 
-def run_nomutation(h, sc, ec, is_sorted):
+def run_nomutation(h, sc, ec, is_sorted, heavy):
     S, pos, neg, pa, na = _S(h, sc, ec, is_sorted=is_sorted)
     t, r = h.real("t"), h.real("r", float_atom=False)
     T, _ = _arg(h, "tt", (2,))
     R, _ = _arg(h, "rr", (2,), float_atom=False)
-    snaps = {"caller pos": (pa, h.snapshot(pa)), "caller neg": (na, h.snapshot(na)), "T": (T, h.snapshot(T)), "R": (R, h.snapshot(R)),
+    h.check("constructor does not mutate the caller's arrays", h.unchanged(S._verif_pre[0], pa) and h.unchanged(S._verif_pre[1], na))
+    snaps = {"caller pos": (pa, S._verif_pre[0]), "caller neg": (na, S._verif_pre[1]), "T": (T, h.snapshot(T)), "R": (R, h.snapshot(R)),
              "S.pos": (S.pos, h.snapshot(S.pos)), "S.neg": (S.neg, h.snapshot(S.neg))}
     scal = (S.nb_easy_pos, S.nb_easy_neg, S.score_class, S.equal_class)
-    for name, q in _queries(h, S, t, r, T, R):
+    for name, q in _queries(h, S, t, r, T, R, heavy):
         first = q()
         again = q()
         h.check(f"{name}: repeating the query returns identical results", _eqlists(h, first, again))
@@ -163,6 +169,8 @@ def run_nomutation(h, sc, ec, is_sorted):
             h.check(f"{name}: does not mutate {what}", h.unchanged(snap, arr))
         h.check(f"{name}: object configuration untouched",
                 (S.nb_easy_pos, S.nb_easy_neg, S.score_class, S.equal_class) == scal and S.pos is snaps["S.pos"][0] and S.neg is snaps["S.neg"][0])
+    if is_sorted:
+        h.check("is_sorted=True: the object aliases the caller's arrays (documented fast path), still unmodified", S.pos is pa and S.neg is na)
 
 
 def _fresh_pair(h):
@@ -176,12 +184,12 @@ def _fresh_pair(h):
     return mk, t, r, T, R
 
 
-def run_history2(h, first):
+def run_history2(h, first, heavy):
     mk, t, r, T, R = _fresh_pair(h)
     ref = mk()
-    alone = [(n, q()) for n, q in _queries(h, ref, t, r, T, R)]   # every query on a pristine object (itself idempotent by nomutation)
+    alone = [(n, q()) for n, q in _queries(h, ref, t, r, T, R, heavy)]   # every query on a pristine object (itself idempotent by nomutation)
     S = mk()
-    qs = _queries(h, S, t, r, T, R)
+    qs = _queries(h, S, t, r, T, R, heavy)
     n1, q1 = qs[first]
     for j, (n2, q2) in enumerate(qs):
         q1()
@@ -191,10 +199,10 @@ def run_history2(h, first):
 def run_history3(h):
     mk, t, r, T, R = _fresh_pair(h)
     ref = mk()
-    idx = [0, 3, 9, 14, 17, 18]
-    alone = {j: _queries(h, ref, t, r, T, R)[j][1]() for j in idx}
+    idx = [0, 3, 9, 14, 16, 17]
+    alone = {j: _queries(h, ref, t, r, T, R, False)[j][1]() for j in idx}
     S = mk()
-    qs = _queries(h, S, t, r, T, R)
+    qs = _queries(h, S, t, r, T, R, False)
     for a, b, c in itertools.permutations(idx, 3):
         qs[a][1]()
         qs[b][1]()
@@ -204,7 +212,7 @@ def run_history3(h):
 def run_cmmetrics(h, shape):
     shape = tuple(shape)
     n = _nprod(shape)
-    cells = [h.int(f"m{i}", 0) for i in range(4 * n)]
+    cells = [h.int(f"m{i}", 1) for i in range(4 * n)]   # entries >= 1: the NaN locus is C04's business, no NaN forks here
     M = h.np.reshape(h.array(cells), shape + (2, 2)) if n else h.np.zeros(shape + (2, 2), dtype=int)
     snap = h.snapshot(M)
     cm = h.sa.ConfusionMatrix(matrix=M, binary=True)
